@@ -91,7 +91,8 @@ static int parseConvertElement(MPT_INTERFACE(convertable) *conv, MPT_TYPE(type) 
 		if (dest) {
 			((const char **) dest)[0] = key;
 		}
-		len = txt - it->val;
+		/* element ends behind key, the separator is skipped on advance */
+		len = (key - it->val) + klen;
 	}
 	/* convert to target type */
 	else if ((len = mpt_convert_string(it->val, type, dest)) <= 0) {
